@@ -645,14 +645,22 @@ def _flat(run, P):
     va = fb.node.args.vararg
     ok = va is not None
     loops = [n for n in fb.node.body if isinstance(n, ast.For)]
-    if ok and len(loops) == 1 and dotted(loops[0].iter) == va.arg:
+    if ok and len(loops) == 1 and dotted(loops[0].iter) == va.arg \
+            and isinstance(loops[0].target, ast.Name):
+        from .util import find, has
         lp = loops[0]
-        v = lp.target.id
-        src = ast.unparse(lp)
-        ok = f"result.extend({v}.children)" in src and f"result.append({v})" in src \
-            and "insert" not in src and "reversed" not in src
-        rets = [s for s in fb.node.body if isinstance(s, ast.Return)]
-        ok = ok and len(rets) == 1 and ast.unparse(rets[0].value) == "Block(*result)"
+        env = {"V_v": lp.target.id}
+        ext = find("V_r.extend(V_v.children)", lp, env)
+        ok = False
+        if ext:
+            env = ext[0][1]
+            ok = has("V_r.append(V_v)", lp, env) \
+                and not any(isinstance(x, ast.Call) and isinstance(x.func, ast.Attribute)
+                            and x.func.attr in ("insert", "appendleft", "extendleft")
+                            for x in ast.walk(lp)) \
+                and not has("reversed(ANY)", lp)
+            rets = [s_ for s_ in fb.node.body if isinstance(s_, ast.Return)]
+            ok = ok and len(rets) == 1 and has("Block(*V_r)", rets[0], env)
     else:
         ok = False
     run.ob("C06.flat", fb, fb.node, ok,
